@@ -94,6 +94,12 @@ class AbstractChunk(ABC):
         # Begin with a thorough inspection of the dataset
         data = utils.check_data_consistency(data, req_cols=self.DATA_COLS)
 
+        # The outcome must depend on the column values only, never on the index labels of the user
+        # DataFrame (which may be non-unique, e.g. after a pd.concat of per-ceilometer frames).
+        # All the label-based row selections below (and in the slicing/grouping/layering steps)
+        # require unique labels: normalize the index of our private copy once and for all.
+        data = data.reset_index(drop=True)
+
         # By default we set this flag to false and overwrite if enough hits are present
         self._clouds_above_msa_buffer = False
 
